@@ -120,17 +120,21 @@ Section Limits.
     rand_loop d dir picks attempts valid s = LOk s' -> Valid s'.
   Proof.
     induction picks as [|i ps IH]; intros attempts valid s s' HV Hp Hr.
-    - destruct attempts; simpl in Hr; [discriminate|]. destruct valid; simpl in Hr; [discriminate|].
-      inversion Hr; now subst.
+    - destruct attempts; simpl in Hr.
+      + destruct valid; [discriminate|]. inversion Hr; now subst.
+      + destruct valid; simpl in Hr; [|inversion Hr; now subst].
+        destruct (all_target d s dir); [inversion Hr; now subst|discriminate].
     - simpl in Hp. apply andb_true_iff in Hp as [Hi Hps]. apply Nat.ltb_lt in Hi.
-      destruct attempts as [|a']; [simpl in Hr; discriminate|].
-      cbn [rand_loop] in Hr. destruct valid; cbn [negb] in Hr; [|inversion Hr; now subst].
-      destruct (Bool.eqb (st_active s i) dir) eqn:E.
-      + eapply IH; eauto.
-      + assert (Hne : st_active s i <> dir) by (intro X; rewrite X, eqb_reflx in E; discriminate).
-        destruct (change_is_valid d (initialising_set d s i dir true)) eqn:C.
-        * eapply IH; [|exact Hps|exact Hr]. now apply toggle_checked_valid.
-        * eapply IH; [|exact Hps|exact Hr]. now apply toggle_back_valid.
+      destruct attempts as [|a'].
+      + simpl in Hr. destruct valid; [discriminate|]. inversion Hr; now subst.
+      + cbn [rand_loop] in Hr. destruct valid; cbn [negb] in Hr; [|inversion Hr; now subst].
+        destruct (all_target d s dir); [inversion Hr; now subst|].
+        destruct (Bool.eqb (st_active s i) dir) eqn:E.
+        * eapply IH; eauto.
+        * assert (Hne : st_active s i <> dir) by (intro X; rewrite X, eqb_reflx in E; discriminate).
+          destruct (change_is_valid d (initialising_set d s i dir true)) eqn:C.
+          -- eapply IH; [|exact Hps|exact Hr]. now apply toggle_checked_valid.
+          -- eapply IH; [|exact Hps|exact Hr]. now apply toggle_back_valid.
   Qed.
 
   Lemma randomize_valid picks s s' :
